@@ -96,7 +96,10 @@ def cfg_toml(cfg):
 SEPS = [" ", " ", " ", "  ", "\n", "\n", "\n\n", "\n\n\n", "\n    ", "   \n", "\t", " \n\n \n", "\n\n\n\n"]
 COMMENTS = ["// c\n", "//\n", "/* c */", "/**/", "/* a\n   b */", "// t   \n", "/* x */ /* y */", "/// d\n",
             "/*\n*/", "// long comment text that goes on for a while to pass narrow widths\n", "/* é ü */",
-            "//! m\n", "/* tail   \n  ws */"]
+            "//! m\n", "/* tail   \n  ws */",
+            # block comments over three and more lines, alone and followed by further comments
+            "/* l1\n   l2\n   l3 */", "/* m1\n\n\n   m4 */ // after\n", "/* p\n q\n r */\n// next\n",
+            "/* u\n v\n w */\n\n/* second */", "// one\n// two\n", "// one\n\n\n// far\n", "/* b1 */\n/* b2 */\n"]
 CLOSERS = set(")]},;")
 OPENERS = set("([{")
 
@@ -137,7 +140,10 @@ def join_tokens(rng, toks, style, p_comment=0.0):
             sep = rng.choice(SEPS)
             if rng.random() < 0.08 and _safe_empty(t, nxt):
                 sep = ""
-        if p_comment and rng.random() < p_comment:
+        # the places where the formatter drops / re-creates a token (a trailing `,` before a closing
+        # delimiter) get a comment far more often than an arbitrary gap
+        boost = 6.0 if (t == "," and nxt[:1] in ")]}>") else (2.0 if nxt[:1] in ")]}" else 1.0)
+        if p_comment and rng.random() < p_comment * boost:
             c = rng.choice(COMMENTS)
             pre = rng.choice([" ", "\n", "\n\n", "  ", ""]) if not t.endswith("\n") else rng.choice(["", "\n", "  "])
             if pre == "" and not t.endswith("\n") and t[-1] in "/*":
@@ -226,7 +232,7 @@ def gen_expr(rng, depth, idents):
         if r < 0.9:
             i = rng.choice(idents)
             return "%s[%s]" % (i, rng.choice(["0", "1", "i", "2:0", "1+:2", "3-:2", "0 step 2"]))
-        return "{%s, %s}" % (rng.choice(idents), rng.choice(idents + NUMS))
+        return "{%s, %s%s}" % (rng.choice(idents), rng.choice(idents + NUMS), rng.choice(["", ","]))
     r = rng.random()
     if r < 0.45:
         return "%s %s %s" % (gen_expr(rng, depth - 1, idents), rng.choice(BIN_OPS), gen_expr(rng, depth - 1, idents))
@@ -242,7 +248,9 @@ def gen_expr(rng, depth, idents):
         return "if %s ? %s : %s" % (gen_expr(rng, depth - 1, idents), gen_expr(rng, depth - 1, idents),
                                     gen_expr(rng, depth - 1, idents))
     if r < 0.9:
-        return "f(%s)" % ", ".join(gen_expr(rng, depth - 1, idents) for _ in range(rng.choice([0, 1, 2, 5])))
+        n = rng.choice([0, 1, 2, 5])
+        return "f(%s%s)" % (", ".join(gen_expr(rng, depth - 1, idents) for _ in range(n)),
+                            "," if n and rng.random() < 0.5 else "")
     if r < 0.94:
         return "{%s repeat %s}" % (gen_expr(rng, depth - 1, idents), rng.choice(["2", "4", "N"]))
     if r < 0.97:
@@ -595,6 +603,17 @@ KEY_EMPTY_MODPORT = "empty-modport-braces"
 #    delimiter.  Recognised by: the only difference is blank lines inserted directly after a line that
 #    consists of `,` alone.
 KEY_COMMA_AFTER_COMMENT = "dropped-trailing-comma-after-line-comment"
+# 4. a block comment spanning lines with blanks at the end of one of its lines: the renderer measures the
+#    comment (fits_flat) with those blanks, strip_trailing_whitespace removes them afterwards, so the
+#    next pass measures a shorter comment and may join / break the surrounding group differently.
+#    Recognised by: x contains such a comment; fmt^3 == fmt^2; fmt(x) and fmt(fmt(x)) have the same
+#    non-blank characters (pure re-wrap).
+KEY_COMMENT_TRAILING_BLANKS = "block-comment-inner-trailing-blanks"
+_COMMENT_INNER_BLANKS = re.compile(r"/\*(?:(?!\*/).)*?[ \t]\r?\n(?:(?!\*/).)*\*/", re.S)
+
+
+def _nonblank(t):
+    return re.sub(r"[\s,]+", "", t)
 
 _MODPORT_OPEN = re.compile(r"^\s*modport\s+\S+\s*\{\s*(//.*|/\*.*\*/\s*)?$")
 
@@ -634,6 +653,14 @@ def explain_nonidempotence(f1, f2):
     return keys
 
 
+def rewrap_by_comment_blanks(text, p, q, third):
+    """known class 4: x holds a multi-line block comment with inner trailing blanks, the third pass is
+    stable, and the two texts differ in layout only"""
+    if text is None or third is None or failed(third):
+        return False
+    return (_COMMENT_INNER_BLANKS.search(text) is not None and _nonblank(p) == _nonblank(q))
+
+
 def judge_idempotent(r, cfg=None, text=None):
     """C08 oracle on one harness result (needs flag 'i').  Returns list of (key, what)."""
     f1, f2 = r.get("f1"), r.get("f2")
@@ -663,10 +690,14 @@ def judge_idempotent(r, cfg=None, text=None):
         what2 = describe(n1, n2, "with vertical_align off as well, fmt(fmt(x)) != fmt(x)")
         if keys:
             return [(k, what2) for k in sorted(keys)]
+        if rewrap_by_comment_blanks(text, n1, n2, f3 if f3 == f2 else None):
+            return [(KEY_COMMENT_TRAILING_BLANKS, what2)]
         return [("not-idempotent", what2)]
     keys = explain_nonidempotence(f1, f2)
     if keys:
         return [(k, what) for k in sorted(keys)]
+    if rewrap_by_comment_blanks(text, f1, f2, f3):
+        return [(KEY_COMMENT_TRAILING_BLANKS, what)]
     return [("not-idempotent", what)]
 
 
